@@ -995,7 +995,7 @@ type membershipAllower struct {
 	*allowerContext
 	// A copy of the room's join rule: the restricted join check rewrites it
 	// for the event in hand and must not leak that into the shared context.
-	joinRule JoinRuleContent
+	joinRule        JoinRuleContent
 	roomVersionImpl IRoomVersion
 	// The m.room.third_party_invite content referenced by this event.
 	thirdPartyInvite ThirdPartyInviteContent
